@@ -28,14 +28,99 @@ theorem loop_plain (f : Nat) (st : PState) (c : Nat) (r : Chars) (hc : Plain c =
   obtain ⟨⟨⟨⟨⟨⟨⟨⟨⟨⟨⟨h1, h2⟩, h3⟩, h4⟩, h5⟩, h6⟩, h7⟩, h8⟩, h9⟩, h10⟩, h11⟩, h12⟩ := hc
   simp [loop, h1, h2, h3, h4, h5, h6, h7, h8, h9, h10, h11, h12, pushAst]
 
-theorem parseEscape_meta (c : Nat) (r : Chars) (hm : isMeta c = true) :
+theorem not_alnum_of_escapeable {c : Nat} (h : isEscapeable c = true) : isAsciiAlnum c = false := by
+  simp only [isEscapeable, Bool.or_eq_true, Bool.and_eq_true, decide_eq_true_eq, Bool.not_eq_true',
+    bne_iff_ne, ne_eq] at h
+  rcases h with hm | ⟨⟨⟨_, ha⟩, _⟩, _⟩
+  · simp only [isMeta, Bool.or_eq_true, decide_eq_true_eq] at hm
+    simp only [isAsciiAlnum, Bool.or_eq_false_iff, Bool.and_eq_false_iff, decide_eq_false_iff_not]
+    omega
+  · exact ha
+
+/-- a backslash before any escapeable char (meta or ASCII punctuation) is that char -/
+theorem parseEscape_escapeable (c : Nat) (r : Chars) (he : isEscapeable c = true) :
     parseEscape (c :: r) = .ok (.lit c, r) := by
-  simp only [isMeta, Bool.or_eq_true, decide_eq_true_eq] at hm
-  rcases hm with ((((((((((((((((( rfl | rfl) | rfl) | rfl) | rfl) | rfl) | rfl) | rfl) | rfl) | rfl) | rfl) | rfl) | rfl) | rfl) | rfl) | rfl) | rfl) | rfl) <;> rfl
+  have ha := not_alnum_of_escapeable he
+  simp only [isAsciiAlnum, Bool.or_eq_false_iff, Bool.and_eq_false_iff, decide_eq_false_iff_not] at ha
+  have hd : isDigit c = false := by
+    simp only [isDigit, Bool.and_eq_false_iff, decide_eq_false_iff_not]; omega
+  have e1 : ¬ c = 120 := by omega
+  have e2 : ¬ c = 117 := by omega
+  have e3 : ¬ c = 85 := by omega
+  have e4 : ¬ c = 112 := by omega
+  have e5 : ¬ c = 80 := by omega
+  have e6 : ¬ c = 100 := by omega
+  have e7 : ¬ c = 68 := by omega
+  have e8 : ¬ c = 115 := by omega
+  have e9 : ¬ c = 83 := by omega
+  have e10 : ¬ c = 119 := by omega
+  have e11 : ¬ c = 87 := by omega
+  have key : escapePrim c = .ok (.lit c) := by
+    unfold escapePrim
+    rw [if_neg (by simp [hd]), if_neg (by simp [e4, e5]), if_neg e6,
+      if_neg e7, if_neg e8, if_neg e9, if_neg e10, if_neg e11]
+    by_cases hm : isMeta c = true
+    · rw [if_pos hm]
+    · rw [if_neg hm, if_pos he]
+  have e12 : ¬ c = 98 := by omega
+  simp only [parseEscape, e1, e2, e3, e12, if_false, key]
+
+theorem parseEscape_meta (c : Nat) (r : Chars) (hm : isMeta c = true) :
+    parseEscape (c :: r) = .ok (.lit c, r) :=
+  parseEscape_escapeable c r (by simp [isEscapeable, hm])
 
 theorem loop_escaped (f : Nat) (st : PState) (c : Nat) (r : Chars) (hm : isMeta c = true) :
     loop (f + 1) st (92 :: c :: r) = loop f (pushAst st (.lit c)) r := by
   simp [loop, parseEscape_meta c r hm, pushAst, Prim.toAst]
+
+theorem loop_escapeable (f : Nat) (st : PState) (c : Nat) (r : Chars) (he : isEscapeable c = true) :
+    loop (f + 1) st (92 :: c :: r) = loop f (pushAst st (.lit c)) r := by
+  simp [loop, parseEscape_escapeable c r he, pushAst, Prim.toAst]
+
+/-- one char of a literal pattern as typed: verbatim (`false`) or after a backslash (`true`) -/
+def spell (p : Nat × Bool) : Chars := if p.2 then [92, p.1] else [p.1]
+
+/-- a legal spelling: verbatim only for chars that are not special for the parser
+(`( ) | [ ? * + { \ . ^ $`), a backslash only before an escapeable char -/
+def SpellOk (p : Nat × Bool) : Bool := if p.2 then isEscapeable p.1 else Plain p.1
+
+/-- a literal text as typed -/
+def spelled (l : List (Nat × Bool)) : Chars := l.flatMap spell
+
+theorem spelled_cons (p : Nat × Bool) (l : List (Nat × Bool)) : spelled (p :: l) = spell p ++ spelled l := by
+  simp [spelled]
+
+theorem length_le_spelled (l : List (Nat × Bool)) : l.length ≤ (spelled l).length := by
+  induction l with
+  | nil => simp [spelled]
+  | cons p l ih =>
+    rw [spelled_cons]
+    cases hp : p.2 <;> simp [spell, hp] <;> omega
+
+/-- the parser walks through a spelled literal text pushing one literal per char -/
+theorem loop_spelled (l : List (Nat × Bool)) (hok : ∀ p ∈ l, SpellOk p = true) :
+    ∀ (f : Nat) (st : PState) (rest : Chars),
+    loop (f + l.length) st (spelled l ++ rest)
+      = loop f { st with concat := (l.map fun p => Ast.lit p.1).reverse ++ st.concat } rest := by
+  induction l with
+  | nil => intro f st rest; simp [spelled]
+  | cons p l ih =>
+    intro f st rest
+    rw [spelled_cons]
+    have e : f + (p :: l).length = (f + l.length) + 1 := by simp; omega
+    rw [e]
+    have hp := hok p (by simp)
+    have ih' := ih (fun q hq => hok q (by simp [hq]))
+    obtain ⟨c, b⟩ := p
+    cases b
+    · simp only [SpellOk, Bool.false_eq_true, if_false] at hp
+      simp only [spell, Bool.false_eq_true, if_false, List.cons_append, List.nil_append]
+      rw [loop_plain _ _ _ _ hp, ih']
+      simp [pushAst]
+    · simp only [SpellOk, if_true] at hp
+      simp only [spell, if_true, List.cons_append, List.nil_append]
+      rw [loop_escapeable _ _ _ _ hp, ih']
+      simp [pushAst]
 
 theorem loop_caret (f : Nat) (st : PState) (r : Chars) :
     loop (f + 1) st (94 :: r) = loop f (pushAst st (.look .startText)) r := by
@@ -135,6 +220,43 @@ theorem parseAst_anchored (pre post : Bool) (cs : Chars) :
     rw [hg, loop_caret, loop_escape cs (g + 2) _ [36], loop_dollar]
     simp [loop, popGroupEnd, pushAst]
 
+/-- `^`? spelled text `$`? -/
+def spelledText (pre post : Bool) (l : List (Nat × Bool)) : Chars :=
+  (if pre then [94] else []) ++ spelled l ++ (if post then [36] else [])
+
+theorem parseAst_spelled (pre post : Bool) (l : List (Nat × Bool)) (hok : ∀ p ∈ l, SpellOk p = true) :
+    parseAst (spelledText pre post l) = .ok (anchoredAst pre post (l.map (·.1))) := by
+  unfold parseAst
+  have hlen := length_le_spelled l
+  have hmap : (List.map (fun p : Nat × Bool => Ast.lit p.1) l) = (l.map (·.1)).map Ast.lit := by
+    simp [List.map_map]
+  cases pre <;> cases post
+  · simp only [spelledText, anchoredAst, Bool.false_eq_true, if_false, List.nil_append,
+      List.append_nil]
+    obtain ⟨g, hg⟩ : ∃ g, (spelled l).length + 1 = (g + 1) + l.length := ⟨(spelled l).length - l.length, by omega⟩
+    have := loop_spelled l hok (g + 1) {} []
+    rw [List.append_nil] at this
+    rw [hg, this, hmap]
+    simp [loop, popGroupEnd]
+  · simp only [spelledText, anchoredAst, Bool.false_eq_true, if_false, if_true, List.nil_append]
+    obtain ⟨g, hg⟩ : ∃ g, (spelled l ++ [36]).length + 1 = (g + 2) + l.length :=
+      ⟨(spelled l).length - l.length, by simp; omega⟩
+    rw [hg, loop_spelled l hok (g + 2) {} [36], loop_dollar, hmap]
+    simp [loop, popGroupEnd, pushAst]
+  · simp only [spelledText, anchoredAst, Bool.false_eq_true, if_false, if_true, List.append_nil,
+      List.cons_append, List.nil_append]
+    obtain ⟨g, hg⟩ : ∃ g, (94 :: spelled l).length + 1 = ((g + 1) + l.length) + 1 :=
+      ⟨(spelled l).length - l.length, by simp; omega⟩
+    have := loop_spelled l hok (g + 1) (pushAst {} (.look .startText)) []
+    rw [List.append_nil] at this
+    rw [hg, loop_caret, this, hmap]
+    simp [loop, popGroupEnd, pushAst]
+  · simp only [spelledText, anchoredAst, if_true, List.cons_append, List.nil_append]
+    obtain ⟨g, hg⟩ : ∃ g, (94 :: (spelled l ++ [36])).length + 1 = ((g + 2) + l.length) + 1 :=
+      ⟨(spelled l).length - l.length, by simp; omega⟩
+    rw [hg, loop_caret, loop_spelled l hok (g + 2) _ [36], loop_dollar, hmap]
+    simp [loop, popGroupEnd, pushAst]
+
 /-! ### the limits -/
 
 /-- no nesting construct -/
@@ -210,6 +332,24 @@ theorem parse_anchored (pre post : Bool) (cs : Chars) (hlen : cs.length ≤ 1900
   have h1 : ¬ height (anchoredAst pre post cs) > nestLimit := by
     unfold height anchoredAst nestLimit; omega
   have h2 : ¬ cost (anchoredAst pre post cs) > costLimit := by
+    unfold anchoredAst costLimit; omega
+  simp [h1, h2]
+
+/-- `Regex::new` accepts a literal however it is spelled -/
+theorem parse_spelled (pre post : Bool) (l : List (Nat × Bool)) (hok : ∀ p ∈ l, SpellOk p = true)
+    (hlen : l.length ≤ 19000) :
+    parse (spelledText pre post l) = .ok (anchoredAst pre post (l.map (·.1))) := by
+  unfold parse
+  rw [parseAst_spelled pre post l hok]
+  have hl := anchored_leaves pre post (l.map (·.1))
+  have hh := heightIn_catOf_leaves _ hl .top
+  have hc := cost_catOf_leaves _ hl
+  have hn : ((if pre then [Ast.look .startText] else []) ++ (l.map (·.1)).map Ast.lit ++
+      (if post then [Ast.look .endText] else [])).length ≤ l.length + 2 := by
+    cases pre <;> cases post <;> simp
+  have h1 : ¬ height (anchoredAst pre post (l.map (·.1))) > nestLimit := by
+    unfold height anchoredAst nestLimit; omega
+  have h2 : ¬ cost (anchoredAst pre post (l.map (·.1))) > costLimit := by
     unfold anchoredAst costLimit; omega
   simp [h1, h2]
 
